@@ -764,6 +764,43 @@ func c15R3R4(p *core.Program, r *core.Report, evalCWV, numCmp, dateCmp, textCmp 
 	}
 	// presence guards: where a value of the contact is supplied only under a test, the test looks at the same field
 	// of the contact as the value comes from (the empty-value forms `x = ""` / `x != ""` test absence / presence of x)
+	// each kind of property is answered from its own source: the contact's field values are consulted only when the
+	// property is not an attribute and not a URN scheme (an attribute the contact has no value for has no values — it
+	// must not fall through to a field that happens to have the same key)
+	{
+		nF := 0
+		core.EachInstr(qp, false, func(_ *ssa.Function, in ssa.Instruction) {
+			var m ssa.Value
+			switch x := in.(type) {
+			case *ssa.Lookup:
+				m = x.X
+			default:
+				return
+			}
+			if _, isMap := m.Type().Underlying().(*types.Map); !isMap || !strings.HasSuffix(canon(m), ".fields") {
+				return
+			}
+			nF++
+			excluded := map[string]bool{}
+			isField := false
+			for _, ce := range core.ControllingConds(in.Block()) {
+				bo, ok := ce.Cond.(*ssa.BinOp)
+				if !ok || bo.Op != token.EQL || bo.X != ssa.Value(typeP) {
+					continue
+				}
+				if k, ok := core.ConstString(bo.Y); ok {
+					if ce.Taken && k == "field" {
+						isField = true
+					} else if !ce.Taken {
+						excluded[k] = true
+					}
+				}
+			}
+			r.Check(isField || (excluded["attr"] && excluded["urn"]), "R3", "QueryProperty/fields-only-for-field-properties", p.Pos(in.Pos()), "the field lookup runs only when the property type is neither attr nor urn",
+				"the contact's fields are consulted on a path where the property is an attribute or a URN scheme: an attribute without a case of its own is answered with the value of a field of the same key instead of no value")
+		})
+		r.Require("field_lookups_in_QueryProperty", nF, 1)
+	}
 	{
 		nG := c15PresenceGuards(p, r, qp, "QueryProperty", []ssa.Value{keyP, typeP})
 		if qv := p.Method("flows", "FieldValue", "QueryValue"); qv != nil {
